@@ -10,7 +10,10 @@ needs libraries the harness process (plain python3, stdlib only) does not have:
     (autobahn signs with libsodium through PyNaCl),
   * OpenSSL Argon2id (`cryptography`'s Argon2id) for the SCRAM salted password
     (autobahn uses argon2-cffi = the reference C implementation),
-  * passlib's saslprep is used by autobahn itself and is only reported, not judged.
+  * passlib's saslprep is used by autobahn itself and is only reported, not judged,
+  * hashlib's PBKDF2 over the base64-decoded salt as the independent KDF of the SCRAM PBKDF2 flavour.
+`extra_cps` of a scram case gives challenge attributes as code point lists (for lone surrogates, which no
+UTF-8 hex can carry).
 Everything HMAC/PBKDF2/base64 is judged in the harness process (Lean driver + hashlib), not here.
 """
 import base64
@@ -269,6 +272,7 @@ def op_scram(c):
         os.urandom = _real_urandom
     r = {"client_nonce": cn.encode().hex(), "nonce_again": a.authextra["nonce"] == cn}
     extra = {k: (T(v) if isinstance(v, str) else v) for k, v in c["extra"].items()}
+    extra.update({k: "".join(map(chr, v)) for k, v in c.get("extra_cps", {}).items()})   # code point lists (lone surrogates)
     for k in ("iterations", "memory"):
         if k in c.get("extra_raw", {}):
             extra[k] = c["extra_raw"][k]
